@@ -2,6 +2,7 @@
 package c09
 
 import (
+	"context"
 	"fmt"
 	"net/http"
 	"net/http/httptest"
@@ -31,6 +32,9 @@ type Case struct {
 	N        int64        `json:"n"`
 	OffsetMS int64        `json:"offset_ms"` // request instant relative to the advertised availability time
 	Paced    bool         `json:"paced"`
+	// ProbeMS >= 0: an additional request this many ms after the advertised availability time, abandoned as soon as the first
+	// bytes arrive: it must be admitted (200), not refused as too early. -1 = none.
+	ProbeMS int64 `json:"probe_ms"`
 }
 
 // recWriter records when each chunk is flushed.
@@ -41,6 +45,7 @@ type recWriter struct {
 	buf     []byte
 	start   time.Time
 	flushes []flushRec
+	onWrite func()
 }
 
 type flushRec struct {
@@ -57,6 +62,9 @@ func (w *recWriter) Write(b []byte) (int, error) {
 		w.code = 200
 	}
 	w.buf = append(w.buf, b...)
+	if w.onWrite != nil {
+		w.onWrite()
+	}
 	return len(b), nil
 }
 func (w *recWriter) Flush() {
@@ -123,6 +131,17 @@ func genCase(t *rapid.T, paced bool) (Case, *env.Env) {
 		c.DRM = ""
 	}
 	tl := refmodel.NewTimeline(e.Asset, rep, cfg)
+	c.ProbeMS = -1
+	if !paced && cfg.AtoMS > 1 {
+		switch rapid.IntRange(0, 3).Draw(t, "probe") {
+		case 0:
+			c.ProbeMS = 0
+		case 1:
+			c.ProbeMS = 1
+		default:
+			c.ProbeMS = int64(rapid.IntRange(0, int(min64(cfg.AtoMS-1, 1500))).Draw(t, "probe-ms"))
+		}
+	}
 	if paced {
 		c.N = int64(rapid.IntRange(0, 40).Draw(t, "n"))
 		c.OffsetMS = int64(rapid.IntRange(0, int(cfg.AtoMS)).Draw(t, "off"))
@@ -144,7 +163,15 @@ func genCase(t *rapid.T, paced bool) (Case, *env.Env) {
 	return c, e
 }
 
+func min64(a, b int64) int64 {
+	if a < b {
+		return a
+	}
+	return b
+}
+
 type info struct {
+	probed   bool
 	chunks   int
 	waited   int
 	tooEarly bool
@@ -171,6 +198,19 @@ func checkCase(c Case, e *env.Env) (*hx.Violation, info) {
 	}
 	name := tl.SegName(rep, c.N)
 	url := ls.URL(parts, e.Asset.Path, name, now)
+	if pnow := availMS + c.ProbeMS; c.ProbeMS >= 0 && pnow >= c.Cfg.StartS*1000 {
+		// a request made at (or shortly after) the advertised availability time can be answered at once
+		ctx, cancel := context.WithCancel(context.Background())
+		pw := &recWriter{hdr: http.Header{}, start: time.Now(), onWrite: cancel}
+		purl := ls.URL(parts, e.Asset.Path, name, pnow)
+		e.Srv.S.Router.ServeHTTP(pw, httptest.NewRequest("GET", purl, nil).WithContext(ctx))
+		cancel()
+		inf.probed = true
+		tolerated := pw.code == 425 && c.ProbeMS == 0 && !tl.ExactInstant(tl.AvailU(c.N)) && strings.Contains(string(pw.buf), "too early by 0ms")
+		if pw.code != 200 && !tolerated {
+			return hx.V("not-admitted-at-availability", "%s (%d ms after the advertised availability time %d ms) -> %d %.100q", purl, c.ProbeMS, availMS, pw.code, pw.buf), inf
+		}
+	}
 	rw := &recWriter{hdr: http.Header{}, start: time.Now()}
 	req := httptest.NewRequest("GET", url, nil)
 	e.Srv.S.Router.ServeHTTP(rw, req)
@@ -319,6 +359,9 @@ func TestC09(t *testing.T) {
 		}
 		if inf.tooEarly {
 			cls = append(cls, "too-early")
+		}
+		if inf.probed {
+			cls = append(cls, "probed-at-availability")
 		}
 		if c.DRM != "" {
 			cls = append(cls, "drm")
